@@ -78,6 +78,65 @@ func genPoke(t *rapid.T) ([]vkit.P2, float64) {
 	return out, h * rapid.Float64Range(1.05, 3).Draw(t, "poketol")
 }
 
+// genWeave: a comb of tall spikes hanging from above, then a vertex S on the left, then a long tail that runs to the right
+// under the spike tips inside a band narrower than the tolerance (rising between the tips, dipping under them). Seen from S
+// the whole tail is within tolerance, so the scan reaches the end; the closing segment from S cuts through spike tips and
+// is refused, the scan backs off to a vertex inside the tail and starts again from there, and from that vertex the chords
+// to later tail vertices leave the tolerance and cut through later spike tips: the code that carries on after a refused
+// closing segment is exercised with obstacles made of output kept before the refusal. All choices are a fixed mixing
+// function (splitmix64) of one drawn value, so the positions are uniform rather than rapid's favourite small numbers.
+func genWeave(t *rapid.T) ([]vkit.P2, float64) {
+	x := rapid.Uint64().Draw(t, "weaveseed")
+	next := func() uint64 {
+		x += 0x9e3779b97f4a7c15
+		z := x
+		z = (z ^ (z >> 30)) * 0xbf58476d1ce4e5b9
+		z = (z ^ (z >> 27)) * 0x94d049bb133111eb
+		return z ^ (z >> 31)
+	}
+	uni := func(a, b float64) float64 { return a + (b-a)*float64(next()>>11)/(1<<53) }
+	tol := uni(0.5, 5)
+	w := tol * uni(0.3, 1.1) // half-width of the band
+	n := 5 + int(next()%14)
+	H := tol * uni(20, 60)
+	grow := uni(1.0, 1.7)
+	tail := make([][2]float64, 0, n)
+	px, step := 0.0, tol*uni(0.3, 4)
+	for k := 0; k < n; k++ {
+		px += step * uni(0.5, 1.5)
+		step *= grow
+		tail = append(tail, [2]float64{px, uni(-w, w)})
+	}
+	// spikes: in some gaps between two tail vertices, a tip just above the tail segment
+	var spikes [][3]float64 // x, tip y, half width
+	prev := [2]float64{0, 0}
+	pSpike := uni(0.15, 0.7)
+	for _, q := range tail {
+		if uni(0, 1) < pSpike {
+			f := uni(0.2, 0.8)
+			sx := prev[0] + f*(q[0]-prev[0])
+			sy := prev[1] + f*(q[1]-prev[1]) + tol*uni(0.02, 0.4)
+			spikes = append(spikes, [3]float64{sx, sy, 0.1 * (q[0] - prev[0])})
+		}
+		prev = q
+	}
+	var l [][2]float64
+	l = append(l, [2]float64{px + step, H})
+	for i := len(spikes) - 1; i >= 0; i-- {
+		sp := spikes[i]
+		l = append(l, [2]float64{sp[0] + sp[2], H}, [2]float64{sp[0], sp[1]}, [2]float64{sp[0] - sp[2], H})
+	}
+	l = append(l, [2]float64{-tol * uni(1, 10), H}, [2]float64{0, 0})
+	l = append(l, tail...)
+	a := uni(0, 2*math.Pi)
+	ox, oy := uni(-50, 50), uni(-50, 50)
+	out := make([]vkit.P2, len(l))
+	for i, q := range l {
+		out[i] = vkit.MkP(ox+q[0]*math.Cos(a)-q[1]*math.Sin(a), oy+q[0]*math.Sin(a)+q[1]*math.Cos(a))
+	}
+	return out, tol
+}
+
 func genLine(t *rapid.T) ([]vkit.P2, string) {
 	style := rapid.SampledFrom([]string{"walk", "walk", "spiral", "inspiral", "zigzag", "hook", "hook", "random", "short"}).Draw(t, "style")
 	switch style {
@@ -237,6 +296,9 @@ func gen(t *rapid.T) Case {
 				// the tolerance has to scale exactly with the line
 				c.Tol = vkit.F(math.Ldexp(math.Round(math.Ldexp(tol, 20)), -20))
 			}
+		} else if rapid.IntRange(0, 3).Draw(t, "weave") == 1 {
+			l, tol := genWeave(t)
+			c.Lines, c.Style, c.Tol = [][]vkit.P2{l}, "weave", vkit.F(math.Ldexp(math.Round(math.Ldexp(tol, 20)), -20))
 		}
 	case "multiline":
 		n := rapid.IntRange(0, 3).Draw(t, "nl")
